@@ -33,7 +33,7 @@ func c26(c *Ctx) {
 	c.Ob("dispatch-sites", "R1", "the per-RPC processing function is called from the dispatcher only, at exactly two sites (registered method, unknown-service fallback)", 2, func() {
 		sites := c.WhoMayCall("processRPC", Callee("grpc", "Server.processRPC"), c.scope("grpc"), "grpc.Server.handleStream")
 		if len(sites) != 2 {
-			panic(anchorErr{"expected two processRPC call sites"})
+			panic(missingStep{"expected two processRPC call sites"})
 		}
 		for _, s := range sites {
 			if ConstNil(s.Common().Args[3]) {
@@ -43,7 +43,7 @@ func c26(c *Ctx) {
 			}
 		}
 		if registered == nil || fallback == nil {
-			panic(anchorErr{"could not tell the registered dispatch from the fallback dispatch"})
+			panic(missingStep{"could not tell the registered dispatch from the fallback dispatch"})
 		}
 	})
 	if registered == nil {
